@@ -11,6 +11,8 @@ TARGETS = ['engine.get_value', 'engine.Atom.get_value', 'engine.Variable.get_val
 def run(rep):
     enginep.engine_deductive(rep, TARGETS)
     enginep.topython_deductive(rep)
+    from . import syntactic
+    syntactic.observers_write_nothing(rep)
     q = rep.tier == 'quick'
     fw.standin(rep, 'real_terms.py', ['search', 3 if q else 4, 50000 if q else 400000, rep.seed],
                'refutation search: real get_value/unify under binding histories vs the spec mirror (resolve)',
